@@ -26,6 +26,7 @@ import (
 	pt "gitlab.torproject.org/tpo/anti-censorship/pluggable-transports/goptlib"
 
 	"gitlab.com/yawning/obfs4.git/transports"
+	"gitlab.com/yawning/obfs4.git/transports/base"
 
 	"verif/memwire"
 	"verif/mon"
@@ -52,16 +53,27 @@ func realDial(wire net.Conn) (net.Conn, error) {
 	return cf.Dial("tcp", "192.0.2.2:443", func(string, string) (net.Conn, error) { return wire, nil }, pa)
 }
 
+// One server factory serves every connection of the process, as a bridge's
+// does: whatever it remembers from one connection is there for the next.
+var (
+	srvOnce    sync.Once
+	srvFactory base.ServerFactory
+	srvErr     error
+)
+
 func realWrap(wire net.Conn) (net.Conn, error) {
-	t := transports.Get("obfs2")
-	if t == nil {
-		return nil, fmt.Errorf("obfs2 transport not registered")
+	srvOnce.Do(func() {
+		t := transports.Get("obfs2")
+		if t == nil {
+			srvErr = fmt.Errorf("obfs2 transport not registered")
+			return
+		}
+		srvFactory, srvErr = t.ServerFactory("", &pt.Args{})
+	})
+	if srvErr != nil {
+		return nil, srvErr
 	}
-	sf, err := t.ServerFactory("", &pt.Args{})
-	if err != nil {
-		return nil, err
-	}
-	return sf.WrapConn(wire)
+	return srvFactory.WrapConn(wire)
 }
 
 // ---------------------------------------------------------------- workload vocabulary
@@ -253,7 +265,7 @@ func runConn(c *mon.Case, r *mon.Run, p params) {
 	// the first I/O error of the connection, in order of occurrence (later
 	// ones are fallout of the teardown it triggers)
 	var faultSig, faultDetail string
-	ending := false // the closing phase has begun: a read error is what is expected now
+	ending := false                                     // the closing phase has begun: a read error is what is expected now
 	fault := func(op string, ds *dirStats, err error) { // mu held
 		if faultSig == "" && !ending {
 			name := "up"
@@ -991,6 +1003,27 @@ func TestCheck(t *testing.T) {
 	r.SpinWatch(memwire.BytesMoved)
 	r.Note("rule", "three parts. (1) grid of pairing (real<->real, reference initiator<->real server, real client<->reference responder) x scenario (client first, server payload coalesced with its key-establishment message, client payload coalesced with its message, both at once, idle gaps, lockstep with a quiescence judgement after every write) x reader chunk policy (all-available, 1, 3, 4, 8, 15, 16, 17, 23, 24, 25, PRNG, 4 KiB back-pressure window after the handshake) on the first direction with a rotating policy on the other; PRNG write scripts from {0,1,2,15,16,17,4096,65536,PRNG<3000} with virtual pauses; the real endpoints' own PADLEN draw steered to 0, 8192 and PRNG values, and every SEED of the connection (reference's and real ones) set to all-zero or all-ones, in part of the connections. (2) padding sweep: the reference sends every padding length of the tier's list in both roles, scenario and chunk policies rotating with the length. (3) non-conforming messages sent by the reference to a real server and to a real client: magic at Hamming distance 1 (all 32), byte-swapped/0/all-ones/PRNG magics, PADLEN in {8193, 8194, 65536, byte-swapped 8192, 2^31-1, 2^31, 2^32-1, PRNG > 8192}, both wrong, and conforming controls (PADLEN 0, 8192, PRNG) through the same driver, each under several chunk policies. Every real endpoint has one reader and one writer goroutine under the race detector; everything a real endpoint writes is also decoded passively by the reference from the wire transcript. Non-trivial = handshake completed and payload flowed (parts 1, 2) or a verdict accepted/rejected was reached (part 3); distinct = distinct parameter tuple.")
 	r.Note("exhaustive_part", fmt.Sprintf("reference padding lengths: %s; wrong magic values at Hamming distance 1: all 32, against both real roles", map[bool]string{false: "0, 1, 8191, 8192 and 64 PRNG values", true: "every value 0..8192 in both roles"}[r.Thorough()]))
+
+	// ---- part 0: the same connection again.  Nothing in the specification
+	// makes a seed single-use: a peer that presents the seeds (and everything
+	// else) of an earlier connection to the same server is served like the
+	// first time.
+	for pairing := 0; pairing < nPairings; pairing++ {
+		for e := 0; e < 3; e++ {
+			pairing, e := pairing, e
+			r.Case(fmt.Sprintf("again/%s/edge-seed-%d", pairingNames[pairing], e), func(c *mon.Case) {
+				seed := r.Sub("again", pairing, e)
+				p := params{pairing: pairing, scenario: scLockstep, refPad: -1, steerS: -1, steerC: -1, edgeSeed: e, seed: seed}
+				if pairing != prRealReal {
+					p.refPad = int(seed % 300)
+				}
+				for k := 0; k < 3; k++ {
+					bubble(c, p.String(), func() { runConn(c, r, p) })
+					r.Count("connections_repeated_with_the_same_seeds", 1)
+				}
+			})
+		}
+	}
 
 	// ---- part 1: grid
 	nPer := r.Pick(2, 30)
